@@ -169,6 +169,7 @@ def check_stream(case, stats):
 
 
 SPECIALS = [
+    "~", "~root", "~/x.feature", "$HOME", "${HOME}/x.feature",
     # bytes that look like another encoding's signature, NULs at even/odd offsets
     "#\x00!\x00 comment\nFeature: f\n", "\x00", "F\x00e\x00a\x00t\x00", "\x00F\x00e", "\ufffeFeature: f\n", "\u00ff\u00feFeature: f\n", "\u00ef\u00bb\u00bfFeature: f\n",
     "# -*- coding: latin-1 -*-\nFeature: caf\u00e9\n",
